@@ -875,6 +875,11 @@ json_print_meta_attr_leaflist(struct jsonpr_ctx *pctx)
     ly_print_(pctx->out, "[%s", (DO_FORMAT ? "\n" : ""));
     LEVEL_INC;
     LY_LIST_FOR(node, iter) {
+        if (!lyd_node_should_print(iter, pctx->options)) {
+            /* no value was printed for this instance, so there is no item for it in this array either */
+            goto next_iter;
+        }
+
         PRINT_COMMA;
         if (iter->schema && ((iter->flags & LYD_DEFAULT) || ((pctx->options & LYD_PRINT_WD_ALL_TAG) && lyd_is_default(iter)))) {
             iter_wdmod = wdmod;
@@ -897,6 +902,8 @@ json_print_meta_attr_leaflist(struct jsonpr_ctx *pctx)
             ly_print_(pctx->out, "%*snull", INDENT);
         }
         LEVEL_PRINTED;
+
+next_iter:
         if (!matching_node(iter, iter->next)) {
             break;
         }
